@@ -12,6 +12,8 @@ var substTable = map[string]string{
 	"fmt.Sprintf": "Sprintf",
 	"context.WithValue": "WithValue",
 	"context.WithCancel": "WithCancel",
+	"time.AfterFunc":     "AfterFunc",
+	"(*time.Timer).Stop": "TimerStop",
 	"errors.Is":         "ErrorsIs",
 	"storj.io/drpc/drpcmanager.isConnectionReset": "NotConnReset",
 	"storj.io/drpc/drpcserver.isTemporary":        "NotTemporary",
